@@ -19,7 +19,7 @@ func init() {
 
 func runC01(c *ctxT) {
 	r := c.R
-	n := 150
+	n := 500
 	if c.Thorough {
 		n = 400
 	}
